@@ -43,6 +43,7 @@ def table : List ModelEntries :=
   , Entries.asyncpass
   , Entries.remotequeue
   , Entries.epollop
+  , Entries.twoctx
   , Entries.mutexv1
   , Entries.mutexv2
   , Entries.alist
